@@ -35,9 +35,11 @@ MUTANTS = {
          "        self._rcache[key] = None\n"
          "        if freq is None: # standard case"),
         ("memoise-make-vector", A,
-         "        I = self.timegrid.restricted.I  # indices of restricted time grid\n        T = self.timegrid.restricted.T\n        if value is None:\n            return value",
-         "        I = self.timegrid.restricted.I  # indices of restricted time grid\n        T = self.timegrid.restricted.T\n        if value is None:\n            return value\n"
-         "        if not hasattr(self, '_mv'): self._mv = {}\n        if id(value) in self._mv and len(self._mv[id(value)]) == T: return self._mv[id(value)].copy()"),
+         ["        I = self.timegrid.restricted.I  # indices of restricted time grid\n        T = self.timegrid.restricted.T\n        if value is None:\n            return value",
+          "        if convert:\n            vec = vec * self.timegrid.restricted.dt\n        return vec"],
+         ["        I = self.timegrid.restricted.I  # indices of restricted time grid\n        T = self.timegrid.restricted.T\n        if value is None:\n            return value\n"
+          "        if isinstance(value, dict) and hasattr(self, '_mv') and (id(value), convert) in self._mv: return self._mv[(id(value), convert)].copy()",
+          "        if convert:\n            vec = vec * self.timegrid.restricted.dt\n        if isinstance(value, dict): self.__dict__.setdefault('_mv', {})[(id(value), convert)] = vec.copy()\n        return vec"]),
         ("negate-take-in-place", A,
          "            my_take = max_take.copy() # need to alter\n            my_take['values'] = -np.asarray(my_take['values'])",
          "            my_take = max_take # need to alter\n            my_take['values'] = -np.asarray(my_take['values'])"),
@@ -56,12 +58,10 @@ MUTANTS = {
     "C11": [
         ("drop-tz-on-write", S, "            mytz = str(obj.tzinfo)\n", "            mytz = None\n"),
         ("minutes-only", S, "'__value__' : obj.strftime(\"%Y-%m-%d %H:%M:%S\")", "'__value__' : obj.strftime(\"%Y-%m-%d %H:00:00\")"),
-        ("orderbook-pop-price", S, "            res.pop('profile', None)\n    elif isinstance(obj, Portfolio):",
-         "            res.pop('profile', None)\n            res['full_exec'] = False\n    elif isinstance(obj, Portfolio):"),
+        ("orderbook-full-exec-lost", S, "        if res['asset_type'] == 'OrderBook': # some parameters not relevant\n",
+         "        if res['asset_type'] == 'OrderBook': # some parameters not relevant\n            res['full_exec'] = False\n"),
         ("forget-is-date", S, "        res['is_date'] = np.issubdtype(obj.dtype, np.datetime64)", "        res['is_date'] = False"),
         ("no-portfolio-grid", S, "            if 'timegrid' in obj:\n                res.set_timegrid(obj['timegrid'])", "            pass"),
-        ("node-without-unit", S, "        res = obj.__dict__.copy()\n        res['__class__'] = 'Node'",
-         "        res = obj.__dict__.copy()\n        res.pop('unit', None)\n        res['__class__'] = 'Node'"),
         ("swap-grid-start-end-freq", S, "               'main_time_unit'     : obj.__dict__['main_time_unit']",
          "               'main_time_unit'     : 'h'"),
     ],
